@@ -168,6 +168,58 @@ def viewers_stream(ck):
               nontrivial=lambda c: len(c[1]) >= 4 and any(e[0] == 2 for e in c[2]),
               sig=lambda c, e, o: "flv-join-shared-tags")
 
+# ---- join replay longer than the consumer's queue limit (block added by the C02 proof worker) ----
+def seam_pkts(rng, flv, h265):
+    """[VPS] SPS PPS (FLV: metadata and the two sequence headers), an old GOP, then a GOP longer than the limit,
+    sometimes followed by the next key start"""
+    i, out = 1, []
+    if h265: out.append([i, 5]); i += 1
+    if flv and rng.random() < 0.7: out.append([i, 5]); i += 1
+    out += [[i, 3], [i + 1, 4]]; i += 2
+    if rng.random() < 0.4:
+        out.append([i, 2]); i += 1
+        for _ in range(rng.randint(0, 2)): out.append([i, 1]); i += 1
+    out.append([i, 2]); i += 1
+    for _ in range(rng.randint(4, 9)):
+        out.append([i, 1 if (flv or rng.random() < 0.85) else 0]); i += 1
+    if rng.random() < 0.5:
+        out.append([i, 2]); i += 1
+        for _ in range(rng.randint(1, 3)): out.append([i, 1]); i += 1
+    return out
+
+def seam_case(rng, pkts, k, maxq, drain, flv, h265):
+    m = len(pkts)
+    sched = [[G.PUB, 0]] * (3 * k) + [[G.ATT, 0]] * 3
+    live = m - k
+    if drain == 0:      # the consumer never runs while the rest is published
+        sched += [[G.PUB, 0]] * (3 * live + 3)
+    elif drain == 1:    # it keeps up: drains after every published packet
+        for _ in range(live + 1):
+            sched += [[G.PUB, 0]] * 3 + [[G.CONS, 0]] * rng.choice([2, 4, 6])
+    else:               # it drains the replay first, then falls behind
+        sched += [[G.CONS, 0]] * rng.randint(2, 2 * (k + 4)) + [[G.PUB, 0]] * (3 * live + 3)
+    if rng.random() < 0.7:
+        sched += [[G.CONS, 0]] * (2 * (m + 3))
+    return [G.FIXED, 1, maxq, True, pkts, [0], sched, [0], flv, 1, h265]
+
+def seam_stream(ck):
+    rng = ck.rng
+    cases = []
+    for rnd in range(30 if ck.thorough else 1):
+        for ci, (flv, h265) in enumerate(((False, False), (True, False), (False, True))):
+            pkts = seam_pkts(rng, flv, h265)
+            keys = [j for j, p in enumerate(pkts) if p[1] == 2]
+            long_key = keys[-2] if len(keys) >= 2 and keys[-1] > len(pkts) - 5 else keys[-1]
+            if ck.thorough:
+                ks = range(len(pkts) + 1)                       # the joiner attaches after every prefix
+            else:                                               # quick: mid-GOP joins of the long GOP (+ one early, one at the end)
+                ks = sorted(set([rng.randrange(0, long_key + 1), len(pkts)] +
+                                list(range(long_key + 2, min(len(pkts), long_key + 9), 2))))
+            for n, k in enumerate(ks):
+                cases.append(seam_case(rng, pkts, k, rng.choice([1, 2, 3, 4]), (n + ci + rnd) % 3, flv, h265))
+    ck.stream("join-replay-longer-than-limit", cases, "C02_lts", "C02_lts", "C02_seam_ok",
+              nontrivial=lambda c: len(c[4]) > c[2] + 3, sig=lambda c, e, o: "join-seam", timeout=1500)
+
 def run(ck):
     if not ck.prepare():
         return ck.finish(rule="build failed")
@@ -211,6 +263,7 @@ def run(ck):
     ck.extra["packetisations_wellformed"] = wf
     producer_stream(ck)
     viewers_stream(ck)
+    seam_stream(ck)
     cases = []
     for _ in range(40 if ck.thorough else 2):
         for flv, h265 in ((False, False), (True, False), (False, True)):
@@ -228,6 +281,7 @@ def run(ck):
                           "non-video channels) and FLV tags (full frame-type/codec nibbles, near-miss onMetaData) through the real "
                           "H264Cache/HevcCache/FlvCache CachePack+PushTo; (2) legal packetisations produced by the Gallina packetiser; "
                           "(2c) FLV tag streams with source timestamps far from 0 published to a real FlvCache while 1-2 earlier viewers (real flv.Writer consumers sharing the tag objects) write some of them; a joiner attaches after every prefix; its replay (index, timestamp, data; read at the join and again at the end) against the cache specification over the published tags, published tags unchanged; "
+                          "(3b) joins with the consumer queue limit lowered to 1..4 (media.VerifSetMaxQLen) and a cached GOP longer than that: joiner after every prefix (mid-GOP), then the rest of the GOP live and sometimes the next key start, consumer never running / keeping up / falling behind, H.264, H.265 and FLV, against the seam oracle (replay then the rest of that GOP, not discarding before a key start); "
                           "(2b) NAL units of every type (H.264 0..31, H.265 0..63; after an IDR GOP and as first frame; random sequences, with and without AAC) "
                           "through the real flv.Muxer/packetizers into a real FlvCache: kinds, timestamps and PushTo against the composition C08 packetizer model + FLV cache model; "
                           "(3) frame sequences (SPS/PPS, key starts, video, audio) published through WriteRtpPacket on a real H.264 or H.265 "
